@@ -44,6 +44,16 @@ structure Config where
   callStackSize : Nat := Gen.callStackSize
   maxInstr : Nat := Gen.maxInstr
 
+/-- which allocations (by index since the schedule was installed) run a collection first -/
+inductive Sched where
+  | none | every | single (k : Nat) | mask (m : Nat)
+
+def Sched.forced : Sched → Nat → Bool
+  | .none, _ => false
+  | .every, _ => true
+  | .single k, i => k == i
+  | .mask m, i => (m / 2 ^ (i % 64)) % 2 == 1
+
 structure VmState where
   stack : VStack Val
   frames : List Frame := []           -- bottom first
@@ -57,6 +67,9 @@ structure VmState where
   hostLog : List String := []
   dispatches : Nat := 0               -- ghost: number of instructions dispatched in this run
   gcRuns : Nat := 0                   -- ghost
+  sched : Sched := .none              -- forced-collection schedule (verification hook)
+  allocIndex : Nat := 0
+  forcedGcs : Nat := 0
 
 def VmState.fresh (c : Config) : VmState :=
   { stack := VStack.new c.stackSize, frameCap := c.callStackSize, mem := Mem.new c.memLimit }
@@ -105,7 +118,10 @@ def gc (s : VmState) : VmState :=
 def allocBytes (charge : Nat) : M Unit := do
   modify fun s => { s with mem := { s.mem with allocated := s.mem.allocated + charge } }
   let s ← get
-  if s.mem.allocated > s.mem.nextGc || s.mem.allocated > s.mem.limit then
+  let forced := s.sched.forced s.allocIndex
+  set { s with allocIndex := s.allocIndex + 1, forcedGcs := s.forcedGcs + (if forced then 1 else 0) }
+  let s ← get
+  if forced || s.mem.allocated > s.mem.nextGc || s.mem.allocated > s.mem.limit then
     let s' := gc s
     set { s' with mem := { s'.mem with nextGc := max (s'.mem.allocated * 2) (Mem.initialGc s'.mem.limit) } }
   let s ← get
@@ -431,13 +447,30 @@ def nativeArity : String → Nat
   | "three" => 3 | "four" => 4
   | _ => 0
 
-/-- `call_native(handle)`: look the procedure up, run it, wrap its error, push its result -/
+/-- argument conversions of the typed wrappers (`TryFrom<Value>`): they run before the host
+    function and, when they fail, the arguments are left on the stack -/
+def nativeConv (name : String) : M Unit := do
+  match name with
+  | "strlen" => do
+    let v ← peek 0
+    match v with
+    | .obj a => match (← get).heap.get a with
+      | some (.str _) => pure ()
+      | _ => throwE .invalidArgument
+    | _ => throwE .invalidArgument
+  | _ => pure ()
+
+/-- `call_native(handle)`: look the procedure up, convert the arguments in place, run it, pop the
+    arguments (also when it failed), wrap its error, push its result -/
 def callNative (reenter : Reenter) (handle : UInt32) : M Unit := do
   match nativeNames.find? (fun n => hName n == handle) with
   | none => throwE .procedureNotFound
   | some name =>
+    (try nativeConv name catch e => throwE (.taskFailure name e))
     let r ← try callNativeBody reenter name
-             catch e => throwE (.taskFailure name e)
+             catch e => do
+               popN (nativeArity name)
+               throwE (.taskFailure name e)
     popN (nativeArity name)
     push r
 
